@@ -62,6 +62,13 @@ def _near(rng, u):
 
 
 def generate(ctx, rng):
+    for key, case in _generate(ctx, rng):
+        if case.get("kind") == "e2e" and case.get("endian") == "little":
+            case["invent"] = rng.random() < 0.5
+        yield key, case
+
+
+def _generate(ctx, rng):
     quick = ctx.tier == "quick"
     n = 0
     # list positions x sizes
@@ -286,7 +293,9 @@ def _e2e(ctx, case):
     token, key = bytes(case["token"]), bytes(case["key"])
     acct, pw = case["cred"]
     model = cloudsrv.CloudModel({acct: pw})
-    model.invent_unknown = True
+    # an unknown id is answered with invented credentials (as the real service does) or - only generated for devices registered
+    # under the little-endian id, which is asked for first - with an empty list
+    model.invent_unknown = case.get("invent", True)
     model.registry[cloudsrv.udpid(did, case["endian"])] = (token.hex(), key.hex())
     net = H.new_net()
     ip = "10.19.0.5"
@@ -305,7 +314,7 @@ def _e2e(ctx, case):
             return [d] if d else []
         return await Discover.discover(**kw)
 
-    k = ("e2e", did, case["endian"], case["mode"], case["others"])
+    k = ("e2e", did, case["endian"], case["mode"], case["others"], case.get("invent", True))
     try:
         devs, loop = H.run_virtual(go, net)
     except Exception as e:  # noqa: BLE001
